@@ -23,6 +23,47 @@ CHECKS = {
   "sub-spaces through the extracted model and the real functions in both overflow-check modes.",
   "Widths outside 1..8 are outside the property (code panics; model says Panic; not generated)."),
 }
+PROVED = {
+ "C16": ("Unbounded theorems for every clause: unsigned/signed/float decoders return the big-endian / two's-complement sign-extended / IEEE value for "
+         "lengths 0-8 (empty = 0) resp. 4 and 8, the error otherwise, never panic; and they invert the writer's payload encoders "
+         "(Writer.write_element: minimal 1/2/4/8-byte width) for every u64 / i64 / f64 bit pattern. Tied to src/tools.rs and tag_writer.rs by "
+         "exhaustive runs on all slices of 0-2 bytes, boundary/random slices, and write-then-read of boundary values.", ""),
+ "C11": ("Theorems: the matcher path_matches decides the declarative pattern semantics Matches (named parent = exactly that master, (min-max) = "
+         "between min and max arbitrary masters, whole chain consumed) for every path and chain; the writer's check accepts iff the chain of open "
+         "masters matches, is applied to every non-End tag of a known id under every option, and a rejection is UnexpectedTag{id, chain} with the state "
+         "unchanged; the reader judges an element against the chain that remains after the unknown-size masters it closes, where the closed count is "
+         "proved to be the declarative closing rule (largest k: k innermost masters unknown-size, outermost of them ended by the element). The reader's "
+         "HierarchyError fields and the call sites are tied by correspondence (every id x reachable chains, brute-force oracle).", ""),
+ "C09": ("Theorems: deprecated unknown-size call = option-based call (definitional in the fixed code); a Full item is buffered as its Start (same "
+         "options), its children, its End; an element write appends exactly id ++ size field ++ payload where the payload depends on the value only "
+         "and an explicit width w gives a size field of exactly w bytes; write_all delivers exactly the data for every write script without a hard "
+         "error. NOT proved: byte equality between one Full call and separate Start/child/End calls when an unknown-size master makes the separate "
+         "calls flush in between (offsets shift) — covered by the correspondence groups (Full vs Start/End mixes, options vs defaults, write scripts).", ""),
+ "C19": ("Theorem C19_atomic: for every specification, state, tag tree (any nesting of Full) and options, a write that returns a non-I/O error "
+         "leaves the complete writer state (open masters, working buffer, delivered bytes, destination script) exactly as it was; corollaries for the "
+         "deprecated call, for write_raw (no non-I/O failure exists) and for the rest of the run (C19_erase). The proof exposed defect D21 (fixed). "
+         "flush()/into_inner() failing with a size error are outside the theorem (they deliver nothing; stated in DESIGN).", ""),
+ "C10": ("Theorems over all call sequences, states, specifications and destination scripts: every call only appends to the delivered bytes (prefix "
+         "of the final output); a successful call with no known-size master open leaves the working buffer empty; a call after which a known-size "
+         "master is open delivered nothing; buffering never touches the destination; flush()/into_inner() close every master and empty the buffer. "
+         "That the delivered bytes parse to the tags written so far is checked by correspondence (destination snapshots parsed by the real iterator).", ""),
+ "C04": ("Theorem C04_refines: for every configuration, input, initial capacity (0 included), every read script in which the source never returns "
+         "Ok(0) before the end and never fails, and every next()/try_recover() sequence, the buffered machine (window, capacity, compaction-free "
+         "refill loop) yields exactly the run of the abstract reader Pure.v on the input; hence identical items/offsets/errors for any two chunkings "
+         "and capacities. EOF pauses at tag boundaries and the EOF-closing switch are covered by correspondence only (exhaustive partitions x "
+         "capacities of small inputs, pause scripts); pauses inside a buffered master are known finding D18.", ""),
+ "C17": ("Theorem C17_buffer_bounded: with a size limit m the model's buffer length never exceeds max(initial capacity, 16, m), for every input, "
+         "configuration, source script (pauses and I/O errors included) and call sequence; a header declaring a larger known size is never accepted "
+         "and header validation requests at most 16 bytes of buffer. Real heap usage (old+new buffer during growth, payload copies, queue) is an "
+         "implementation-level oracle measured by the harness' counting allocator: partial by nature.",
+         "The allocator and Vec/Box growth are not modelled; the measured bound 3*max(m, cap, 16)+4*len+64KiB is an oracle, not a theorem. "),
+ "C20": ("PARTIAL + known finding D15. Theorem C20_first_read_partial: if the source delivers the whole input (<= 64 KiB) with its first read the "
+         "async iterator yields exactly the abstract reader's run (= the blocking iterator by C04_refines), ending once. C20_refuted exhibits a schedule "
+         "(first read of 1 byte) on which the faithful model differs from the blocking run: the property as stated is violated by nonblocking.rs "
+         "(KNOWN_FINDINGS D15, class 'starved', decided from the schedule and the blocking parse by props/readcheck.py). Non-starved multi-read "
+         "schedules (inputs > 64 KiB in 64 KiB reads, buffered sets, the stream adapter) are covered by correspondence.",
+         "futures' executor/waker protocol is not modelled (the scripted source never returns Pending). "),
+}
 PENDING = {
  "C16": "fixed-width decoders: model Tools.arr_to_*; correspondence exhaustive on slices of 0-2 bytes + writer inversion via write/read",
  "C11": "model Spec.path_matches/count_ended/validate_tag_path; correspondence on every id x reachable chains, writer and reader side, brute-force pattern oracle",
@@ -43,6 +84,10 @@ PENDING = {
  "C17": "model Reader (buffer length r_cap); declared sizes of every class with payload absent; counting allocator in the harness",
  "C20": "model Reader.anext; async vs blocking over poll schedules; starved schedules = known finding D15",
 }
+for _p in PROVED:
+    PENDING.pop(_p, None)
+for _p, (_t, _n) in PROVED.items():
+    CHECKS[_p] = _e(T_CORR, _t, _n)
 for _p, _t in PENDING.items():
     CHECKS[_p] = _e(T_CORR,
         "Executable Gallina model of the code path (" + _t + "), extracted and run against the real code on generated cases every run; the property oracle "
